@@ -15,12 +15,17 @@
 (* create without testing again", which TLC must refute.                             *)
 EXTENDS Naturals, FiniteSets, TLC
 
-CONSTANTS Callers, InitOut, InitErr, Feeds, Recheck
+CONSTANTS Callers, InitOut, InitErr, Feeds, Recheck,
+          Combines,          \* TRUE: an application thread may call set_combine_stderr(True) and drain stdout
+          EmptyKeepsEvent    \* seeded error: BufferedPipe.empty() leaves the event as it is
 
 MaxP == Cardinality(Callers)
 Free == "free"
-VARIABLES pc, lock, chanPipe, npipes, evt, half, buf, ret, mine, fed
-vars == <<pc, lock, chanPipe, npipes, evt, half, buf, ret, mine, fed>>
+VARIABLES pc, lock, chanPipe, npipes, evt, half, buf, ret, mine, fed,
+          cpc,      \* set_combine_stderr(True): "idle" | "refeed" | "done"
+          carry,    \* bytes taken out of the stderr buffer by empty(), not yet fed into stdout
+          reads     \* drains of stdout by the application (bounded)
+vars == <<pc, lock, chanPipe, npipes, evt, half, buf, ret, mine, fed, cpc, carry, reads>>
 
 Init == /\ pc = [c \in Callers |-> "start"]
         /\ lock = Free /\ chanPipe = 0 /\ npipes = 0
@@ -28,6 +33,7 @@ Init == /\ pc = [c \in Callers |-> "start"]
         /\ half = [k \in 1..MaxP |-> <<FALSE, FALSE>>]       \* OrPipe halves of pipe k; the pipe is readable iff one is set
         /\ buf = <<InitOut, InitErr>>
         /\ ret = [c \in Callers |-> 0] /\ mine = [c \in Callers |-> 0] /\ fed = 0
+        /\ cpc = "idle" /\ carry = 0 /\ reads = 0
 
 Readable(k) == k # 0 /\ (half[k][1] \/ half[k][2])
 
@@ -35,39 +41,59 @@ Start(c) == /\ pc[c] = "start"
             /\ IF Recheck THEN pc' = [pc EXCEPT ![c] = "acq"] /\ UNCHANGED ret
                ELSE IF chanPipe # 0 THEN pc' = [pc EXCEPT ![c] = "done"] /\ ret' = [ret EXCEPT ![c] = chanPipe]
                ELSE pc' = [pc EXCEPT ![c] = "acq"] /\ UNCHANGED ret
-            /\ UNCHANGED <<lock, chanPipe, npipes, evt, half, buf, mine, fed>>
+            /\ UNCHANGED <<lock, chanPipe, npipes, evt, half, buf, mine, fed, cpc, carry, reads>>
 Acq(c) == /\ pc[c] = "acq" /\ lock = Free
           /\ lock' = c /\ pc' = [pc EXCEPT ![c] = "chk"]
-          /\ UNCHANGED <<chanPipe, npipes, evt, half, buf, ret, mine, fed>>
+          /\ UNCHANGED <<chanPipe, npipes, evt, half, buf, ret, mine, fed, cpc, carry, reads>>
 Chk(c) == /\ pc[c] = "chk"
           /\ IF Recheck /\ chanPipe # 0
              THEN mine' = [mine EXCEPT ![c] = chanPipe] /\ pc' = [pc EXCEPT ![c] = "rel"]
              ELSE UNCHANGED mine /\ pc' = [pc EXCEPT ![c] = "mk"]
-          /\ UNCHANGED <<lock, chanPipe, npipes, evt, half, buf, ret, fed>>
+          /\ UNCHANGED <<lock, chanPipe, npipes, evt, half, buf, ret, fed, cpc, carry, reads>>
 Mk(c) == /\ pc[c] = "mk"
          /\ npipes' = npipes + 1 /\ chanPipe' = npipes + 1 /\ mine' = [mine EXCEPT ![c] = npipes + 1]
          /\ pc' = [pc EXCEPT ![c] = "ev1"]
-         /\ UNCHANGED <<lock, evt, half, buf, ret, fed>>
+         /\ UNCHANGED <<lock, evt, half, buf, ret, fed, cpc, carry, reads>>
 \* BufferedPipe.set_event: remember the event; set it if data is buffered, else clear it
 SetEvent(c, b, next) == /\ evt' = [evt EXCEPT ![b] = mine[c]]
                         /\ half' = [half EXCEPT ![mine[c]][b] = buf[b] > 0]
                         /\ pc' = [pc EXCEPT ![c] = next]
-                        /\ UNCHANGED <<lock, chanPipe, npipes, buf, ret, mine, fed>>
+                        /\ UNCHANGED <<lock, chanPipe, npipes, buf, ret, mine, fed, cpc, carry, reads>>
 Ev1(c) == pc[c] = "ev1" /\ SetEvent(c, 1, "ev2")
 Ev2(c) == pc[c] = "ev2" /\ SetEvent(c, 2, "rel")
 Rel(c) == /\ pc[c] = "rel"
           /\ lock' = Free /\ ret' = [ret EXCEPT ![c] = mine[c]] /\ pc' = [pc EXCEPT ![c] = "done"]
-          /\ UNCHANGED <<chanPipe, npipes, evt, half, buf, mine, fed>>
+          /\ UNCHANGED <<chanPipe, npipes, evt, half, buf, mine, fed, cpc, carry, reads>>
 
-Feed(b) == /\ fed < Feeds /\ fed' = fed + 1
-           /\ half' = IF evt[b] # 0 THEN [half EXCEPT ![evt[b]][b] = TRUE] ELSE half
-           /\ buf' = [buf EXCEPT ![b] = @ + 1]
-           /\ UNCHANGED <<pc, lock, chanPipe, npipes, evt, ret, mine>>
+\* data for stream b arrives; once stderr is combined into stdout, stderr data is fed into the stdout buffer
+Target(b) == IF b = 2 /\ cpc = "done" THEN 1 ELSE b
+Feed(b) == /\ fed < Feeds /\ fed' = fed + 1 /\ (b = 2 => cpc # "refeed")   \* set_combine_stderr holds the channel lock _feed_extended needs
+           /\ LET t == Target(b) IN
+                /\ half' = IF evt[t] # 0 THEN [half EXCEPT ![evt[t]][t] = TRUE] ELSE half
+                /\ buf' = [buf EXCEPT ![t] = @ + 1]
+           /\ UNCHANGED <<pc, lock, chanPipe, npipes, evt, ret, mine, cpc, carry, reads>>
+\* the application drains stdout (BufferedPipe.read taking everything: clears the event of an open buffer)
+Read1 == /\ Combines /\ reads < 2 /\ buf[1] > 0 /\ reads' = reads + 1
+         /\ buf' = [buf EXCEPT ![1] = 0]
+         /\ half' = IF evt[1] # 0 THEN [half EXCEPT ![evt[1]][1] = FALSE] ELSE half
+         /\ UNCHANGED <<pc, lock, chanPipe, npipes, evt, ret, mine, fed, cpc, carry>>
+\* set_combine_stderr(True), first half: data = in_stderr_buffer.empty()
+Comb1 == /\ Combines /\ cpc = "idle" /\ lock = Free
+         /\ carry' = buf[2] /\ buf' = [buf EXCEPT ![2] = 0]
+         /\ half' = IF evt[2] # 0 /\ ~EmptyKeepsEvent THEN [half EXCEPT ![evt[2]][2] = FALSE] ELSE half
+         /\ cpc' = "refeed" /\ lock' = "combiner"             \* both halves run under the channel lock (as fileno() does)
+         /\ UNCHANGED <<pc, chanPipe, npipes, evt, ret, mine, fed, reads>>
+\* ... second half: if len(data) > 0: self._feed(data)
+Comb2 == /\ cpc = "refeed" /\ cpc' = "done" /\ carry' = 0 /\ lock' = Free
+         /\ buf' = [buf EXCEPT ![1] = @ + carry]
+         /\ half' = IF carry > 0 /\ evt[1] # 0 THEN [half EXCEPT ![evt[1]][1] = TRUE] ELSE half
+         /\ UNCHANGED <<pc, chanPipe, npipes, evt, ret, mine, fed, reads>>
 
 Next == (\E c \in Callers : Start(c) \/ Acq(c) \/ Chk(c) \/ Mk(c) \/ Ev1(c) \/ Ev2(c) \/ Rel(c)) \/ (\E b \in 1..2 : Feed(b))
+        \/ Read1 \/ Comb1 \/ Comb2
 Spec == Init /\ [][Next]_vars
 
-Quiescent == \A c \in Callers : pc[c] = "done"
+Quiescent == (\A c \in Callers : pc[c] = "done") /\ cpc # "refeed"
 HasData == buf[1] > 0 \/ buf[2] > 0
 \* every descriptor an application was handed is readable exactly when data is buffered
 DescriptorTracksData == Quiescent => \A c \in Callers : Readable(ret[c]) <=> HasData
